@@ -510,3 +510,113 @@ Section Members.
              ++ intros ->. apply Hn. apply in_app_iff. right. left. reflexivity.
   Qed.
 End Members.
+
+(* ---------- without collisions every member owns all of its points ---------- *)
+Section NoCollision.
+  Variable hash : list Z -> Z.
+  Variable U : name -> Prop.            (* the names that are ever added *)
+  Hypothesis disjoint : forall a b, U a -> U b -> a <> b ->
+    forall p, In p (points hash a) -> ~ In p (points hash b).
+
+  Definition full (s : ring) : Prop :=
+    inv hash s /\ (forall n, In n (nodes s) -> U n) /\
+    forall n p, In n (nodes s) -> In p (points hash n) -> In (p, n) (circle s).
+
+  Lemma circle_add_mono q x c e : In e c -> In e (circle_add q x c).
+  Proof.
+    induction c as [|[k m] c IH]; cbn [circle_add In]; [tauto|].
+    destruct (q <? k); [cbn [In]; tauto|]. destruct (q =? k); [cbn [In]; tauto|].
+    cbn [In]. intros [H|H]; auto.
+  Qed.
+
+  Lemma circle_add_present q x c : exists m, In (q, m) (circle_add q x c) /\ (m = x \/ In (q, m) c).
+  Proof.
+    induction c as [|[k m] c IH]; cbn [circle_add In].
+    - exists x. auto.
+    - destruct (q <? k); [exists x; cbn [In]; auto|].
+      destruct (Z.eqb_spec q k) as [->|Hne]; [exists m; cbn [In]; auto|].
+      destruct IH as [m' [H1 H2]]. exists m'. cbn [In]. tauto.
+  Qed.
+
+  Lemma fold_add_mono x pts : forall c e, In e c -> In e (fold_left (fun c p => circle_add p x c) pts c).
+  Proof. induction pts as [|q pts IH]; cbn; intros c e H; [assumption|]. apply IH, circle_add_mono, H. Qed.
+
+  Lemma fold_add_present x pts : forall c q, In q pts ->
+    exists m, In (q, m) (fold_left (fun c p => circle_add p x c) pts c) /\ (m = x \/ In (q, m) c).
+  Proof.
+    induction pts as [|q0 pts IH]; cbn; intros c q Hin; [contradiction|].
+    destruct Hin as [->|Hin].
+    - destruct (circle_add_present q x c) as [m [H1 H2]]. exists m. split; [apply fold_add_mono, H1 | exact H2].
+    - destruct (IH (circle_add q0 x c) q Hin) as [m [H1 H2]]. exists m. split; [exact H1|].
+      destruct H2 as [H2|H2]; [auto|]. apply (circle_add_fst hash) in H2 as [E|H2]; [inversion E; auto | auto].
+  Qed.
+
+  Lemma fold_del_keep x pts : forall c e, In e c -> snd e <> x ->
+    In e (fold_left (fun c p => circle_del p x c) pts c).
+  Proof.
+    induction pts as [|q pts IH]; cbn; intros c e H Hne; [assumption|].
+    apply IH; [|assumption]. unfold circle_del. apply filter_In. split; [assumption|].
+    unfold keeps. apply name_eqb_neq in Hne. rewrite Hne, andb_false_r. reflexivity.
+  Qed.
+
+  Lemma full_empty : full empty.
+  Proof. split; [apply inv_empty|]. split; intros n; cbn; tauto. Qed.
+
+  Lemma full_add x s : U x -> full s -> full (add_node hash x s).
+  Proof.
+    intros Ux [Hi [Hu Hf]]. split; [apply inv_add, Hi|].
+    unfold add_node. destruct (mem_name x (nodes s)) eqn:M; [split; assumption|]. cbn [nodes circle].
+    assert (Hx : ~ In x (nodes s)) by (rewrite <- mem_name_In; congruence).
+    split.
+    - intros n [<-|Hn]; auto.
+    - intros n p [<-|Hn] Hp.
+      + destruct (fold_add_present x (points hash x) (circle s) p Hp) as [m [H1 [->|H2]]]; [exact H1|].
+        destruct Hi as [_ Ho]. destruct (Ho _ _ H2) as [Hm Hpm].
+        destruct (name_eqb m x) eqn:E; [apply name_eqb_eq in E; subst; exact H1|].
+        apply name_eqb_neq in E. exfalso. apply (disjoint m x (Hu _ Hm) Ux E p Hpm Hp).
+      + apply fold_add_mono. apply Hf; assumption.
+  Qed.
+
+  Lemma full_remove x s : full s -> full (remove_node hash x s).
+  Proof.
+    intros [Hi [Hu Hf]]. split; [apply inv_remove, Hi|]. cbn [remove_node nodes circle]. split.
+    - intros n Hn. apply filter_In in Hn as [Hn _]. auto.
+    - intros n p Hn Hp. apply filter_In in Hn as [Hn Hne].
+      apply fold_del_keep; [apply Hf; assumption|]. cbn.
+      apply negb_true_iff, name_eqb_neq in Hne. exact Hne.
+  Qed.
+
+  Lemma full_run_from ops : forall s, full s -> (forall n, In (Add n) ops -> U n) ->
+    full (fold_left (step hash) ops s).
+  Proof.
+    induction ops as [|o ops IH]; cbn [fold_left]; intros s Hs Hu; [assumption|].
+    apply IH; [|intros n Hn; apply Hu; right; exact Hn].
+    destruct o as [x|x]; cbn [step]; [apply full_add; [apply Hu; left; reflexivity | exact Hs] | apply full_remove, Hs].
+  Qed.
+End NoCollision.
+
+Lemma points_nonempty hash n : points hash n <> [].
+Proof. unfold points, replicas, collections_consistent_ReplicaCount. cbn. discriminate. Qed.
+
+Lemma owns_all_points hash ops :
+  (forall a b, In (Add a) ops -> In (Add b) ops -> a <> b ->
+     forall p, In p (points hash a) -> ~ In p (points hash b)) ->
+  forall n p, In n (nodes (run hash ops)) -> In p (points hash n) ->
+    circle_get p (circle (run hash ops)) = Some n.
+Proof.
+  intros Hd n p Hn Hp.
+  destruct (full_run_from hash (fun a => In (Add a) ops) Hd ops empty (full_empty hash _) (fun a H => H)) as [[Hs _] [_ Hf]].
+  apply circle_get_in; [exact Hs|]. apply Hf; assumption.
+Qed.
+
+Lemma members_have_points hash ops :
+  (forall a b, In (Add a) ops -> In (Add b) ops -> a <> b ->
+     forall p, In p (points hash a) -> ~ In p (points hash b)) ->
+  nodes (run hash ops) <> [] -> circle (run hash ops) <> [].
+Proof.
+  intros Hd Hne Hc. destruct (nodes (run hash ops)) as [|n ns] eqn:En; [contradiction|].
+  destruct (points hash n) as [|p ps] eqn:Ep; [exact (points_nonempty hash n Ep)|].
+  assert (H : circle_get p (circle (run hash ops)) = Some n).
+  { apply owns_all_points; [exact Hd | rewrite En; left; reflexivity | rewrite Ep; left; reflexivity]. }
+  rewrite Hc in H. discriminate.
+Qed.
